@@ -3,9 +3,13 @@
    must be a behaviour of Peering.  Logged: API calls (call and return for Stop/RemovePeer/Start),
    network events, every critical section that asks the network for Connectedness (Run), timer firings
    forced by the harness, Connect calls and their outcomes, observations of handler state (Obs) and
-   quiescence points (Quiet: no service goroutine is running).  Not logged, hence silent: the two halves
-   of handler.stop() inside Stop/RemovePeer, goroutines that return without asking the network, and the
-   Reset after a failed Connect.  Timers never fire on their own during a run (delays are >= 7.5 s, a run
+   quiescence points (Quiet: no service goroutine is running), and the ph.cancel() sub-step of handler.stop()
+   (HCancel, logged by the wrapper the harness puts around ph.cancel, with what it saw of the timer:
+   "none" | "set" | "locked" = ph.mu was held).  Not logged, hence silent: the other sub-step of
+   handler.stop() (lock; timer.Stop(); timer = nil; unlock) -- it may come before or after the logged
+   HCancel (StopOrders = both orders; the observation and the events around it decide) --, goroutines that
+   return without asking the network, and the Reset after a failed Connect.  The wrapper lets the pending
+   handler goroutines run before and/or after the real cancel, i.e. between the sub-steps of stop().  Timers never fire on their own during a run (delays are >= 7.5 s, a run
    takes milliseconds and every observed armed timer is pushed an hour ahead): TimerFire is always logged.  The properties are part of acceptance
    (PropertyHolds): a history is accepted iff SOME explanation satisfies them throughout.  *)
 EXTENDS Peering, Integers, Sequences
@@ -41,6 +45,11 @@ TStopCall   == IsEvent("StopCall") /\ StopCall
 TStopRet    == IsEvent("StopRet") /\ ApiRet("stop")
 TStartCall  == IsEvent("StartCall") /\ StartCall
 TStartRet   == IsEvent("StartRet") /\ Ev.err = startErr /\ UNCHANGED vars
+THCancel    == /\ IsEvent("HCancel") /\ Ev.h \in Hs
+               /\ CASE Ev.tm = "none" -> timer[Ev.h] = "none"
+                    [] Ev.tm = "set"  -> timer[Ev.h] # "none"
+                    [] OTHER          -> TRUE
+               /\ HCancel(Ev.h)
 TEnvConn    == IsEvent("EnvConn") /\ Ev.reg = registered /\ EnvConn(Ev.p)
 TEnvDisc    == IsEvent("EnvDisc") /\ Ev.reg = registered /\ EnvDisc(Ev.p)
 TRun ==
@@ -67,11 +76,11 @@ TQuiet      == /\ IsEvent("Quiet")
                /\ UNCHANGED vars
 
 Silent == /\ l' = l /\ l <= Len(Trace)
-          /\ \E h \in Hs : \/ HCancel(h) \/ HStopTimer(h) \/ RunStartNoop(h)
+          /\ \E h \in Hs : \/ HStopTimer(h) \/ RunStartNoop(h)
                            \/ RunStopcNoop(h, "stopc") \/ RunStopcNoop(h, "rstopc")
                            \/ RecFailReset(h)
 
-TNext == \/ TReset \/ TAddPeer \/ TRemoveCall \/ TRemoveRet \/ TStopCall \/ TStopRet \/ TStartCall \/ TStartRet
+TNext == \/ TReset \/ TAddPeer \/ TRemoveCall \/ TRemoveRet \/ TStopCall \/ TStopRet \/ TStartCall \/ TStartRet \/ THCancel
          \/ TEnvConn \/ TEnvDisc \/ TRun \/ TTimerFire \/ TDialStart \/ TDialRet \/ TObs \/ TQuiet \/ Silent
 TSpec == TInit /\ [][TNext]_tlvars
 
